@@ -4,7 +4,7 @@ namespace Driver
 open Ftdc Ftdc.Metrics
 
 def jsonTok (t : String) : Option Line :=
-  if t.startsWith "BAD" then some .malformed
+  if t.startsWith "BAD" || t.startsWith "RDERR" then some .malformed   -- RDERR: the source fails here (never a clean end)
   else if t.startsWith "LONG" || t.startsWith "PADL" then some .tooLong
   else if t.startsWith "PADS" then
     -- PADS<n>:<hex>: the same document in a line of exactly n bytes that the scanner accepts
